@@ -34,7 +34,7 @@ pub fn ref_signed_form(text: &str) -> Vec<u8> {
 }
 
 /// independent splitter of an emitted cleartext document -> (hash header values, escaped text, armor rest)
-fn split_document(doc: &str) -> Result<(Vec<String>, String, String), String> {
+pub fn split_document(doc: &str) -> Result<(Vec<String>, String, String), String> {
     let rest = doc.strip_prefix("-----BEGIN PGP SIGNED MESSAGE-----\n").ok_or("first line")?;
     let mut hashes = vec![];
     let mut pos = 0;
@@ -64,7 +64,7 @@ fn split_document(doc: &str) -> Result<(Vec<String>, String, String), String> {
     }
     let end = found.ok_or("no armor header line after the text")?;
     if !body[end..].starts_with("-----BEGIN PGP SIGNATURE-----") {
-        return Err(format!("text section ends at a line starting with {:?}", &body[end..(end + 40).min(body.len())]));
+        return Err(format!("text section ends at a line starting with {:?}", body[end..].chars().take(40).collect::<String>()));
     }
     let mut text = &body[..end];
     // the line break before the armor header is not part of the text
@@ -78,7 +78,7 @@ fn split_document(doc: &str) -> Result<(Vec<String>, String, String), String> {
     Ok((hashes, text.to_string(), body[end..].to_string()))
 }
 
-fn unescape(escaped: &str) -> String {
+pub fn unescape(escaped: &str) -> String {
     let mut out = String::new();
     for line in escaped.split_inclusive('\n') {
         out.push_str(line.strip_prefix("- ").unwrap_or(line));
